@@ -68,8 +68,8 @@ def run(ch, render=False):
     src = ch.weighted([(4, "bytes"), (5, "file"), (2, "bytesio"), (6, "socket")], "source")
     consumer = ch.weighted([(3, "ccsds_generator"), (1, "packet_generator_headers_only"),
                             (2, "packet_generator_parsed")], "consumer")
-    k = ch.weighted([(8, 0), (1, 1), (1, 4), (1, 6), (1, 7), (1, 11)], "k")
-    rs = ch.pick((None, 1, 2, 3, 5, 6, 7, 8, 13, 4096, 65536), "read_size")
+    k = ch.weighted([(8, 0), (1, 1), (1, 4), (1, 6), (1, 7), (1, 11), (1, 5), (1, 2), (1, 12), (1, 13), (1, 64), (1, 300)], "k")
+    rs = ch.pick((None, 1, 2, 3, 5, 6, 7, 8, 13, 4096, 65536, 9, 10, 11, 12, 16, 64, 100, 1000), "read_size")
     progress = ch.chance(1, 8, "progress")
     skind = ch.weighted([(6, "valid"), (2, "flipped"), (1, "random")], "stream_kind")
     long_ = ch.chance(1, 6, "long")
